@@ -3,6 +3,7 @@ Arithmetic + priority queue (SEQ, exhaustive); daemon histories with the virtual
 the VK engine when available (see checks/C15vk hook below)."""
 import os
 from lib.common import *
+from lib.daemonchk import *
 
 
 def main(tier, replay=None):
@@ -23,13 +24,25 @@ def main(tier, replay=None):
     jobs += [("%s sqrt %d %d" % (exe, i * step, (i + 1) * step), "squareroot [%d,%d)" % (i * step, (i + 1) * step)) for i in range(shards)]
     jobs += [("%s sqrtedges" % exe, "squareroot edges"), ("%s retry" % exe, "nextretry grid")]
     res.run_parallel(jobs)
-    if "VK" in globals():
-        pass
+    # daemon-level schedule under the virtual clock (VK engine)
+    M = "monitors=C15,C16"
+    q = tier == "quick"
+    vk_build()
+    srcp = scratch_build(rd, "plain")
+    fams = [
+        dict(name="backoff-l1r1", opts=[M, "msgs=l1r1", "verdicts=KZ", "reorder=1"], bounds="0,0,0,%d" % (3 if q else 4), total=4),
+        dict(name="expiry-slot-reuse", opts=[M, "msgs=l1+l1b", "inject=drain", "lifetime=50", "verdicts=KZ", "reorder=1", "signals=0"], bounds="0,0,0,%d" % (3 if q else 4), total=4),
+        dict(name="expiry-lifetime0", opts=[M, "msgs=r1", "lifetime=0", "verdicts=KZ", "reorder=1", "signals=0"], bounds="0,0,0,3", total=3),
+        dict(name="restart-l3-conc1", opts=[M, "msgs=l3", "concl=1", "verdicts=KZ", "reorder=1"], bounds="0,0,0,%d" % (3 if q else 4), total=4),
+        dict(name="two-messages-order", opts=[M, "msgs=l1+r1b", "verdicts=KZ", "reorder=2", "signals=0"], bounds="0,0,0,%d" % (3 if q else 4), total=4),
+    ]
+    for f in fams:
+        vk_run(res, "daemon", srcp, rd, f["bounds"], f["total"], 600, f["name"], opts=f["opts"])
     res.rule = ("squareroot(): every age in [0,%d) plus k^2-1,k^2,k^2+1 for all k<65536 (non-trivial: all); nextretry(): grid of 7 births x "
                 "ages -3..20000 dense, to 700000 stride 37, all square edges 140..999, both channels, against birth+(isqrt(age)+10|20)^2 and "
                 "'> now'; prioq: DFS over every insert/delmin sequence up to the depth over the key values on the real heap, checking after "
                 "every operation that prioq_min is an earliest-due element that is present (states = distinct heap arrays reached, "
                 "transitions = operations applied); every insertion order of n distinct keys drained by delmin" % top)
-    res.assumptions = ["ages >= 2^32 s (136 years) are outside the statement", "daemon-level schedule (order of delivery commands under a virtual clock) is covered by the VK histories, not by this harness"]
-    res.require_nonzero("evaluations", "states", "transitions")
+    res.assumptions = ["ages >= 2^32 s (136 years) are outside the statement", "daemon histories: real qmail-send under the virtual kernel and clock; monitors: no new pass for a deferred message before birth+(isqrt(age)+10|20)^2 unless ALRM or an unclean restart intervened, the daemon never sleeps past the earliest due time, a deferral of an unexpired message never finishes a recipient, an expired one does"]
+    res.require_nonzero("evaluations", "states", "transitions", "passes_started", "reports_Z", "ticks", "expired_deferrals", "signal_ALRM", "clean_stops")
     return res.finish()
